@@ -16,7 +16,7 @@ exactly representable), small integer multiples of a subnormal unit (2^-149 / 2^
 for the product operations: every term and partial sum is an exactly representable subnormal-range value) or at most one \
 term is non-zero (one-hot vectors at every index) the result must equal \
 the exact value. Value classes: uniform-exponent random, wide-exponent random, same-sign, cancelling, small \
-integers, subnormal integers, one-hot, sparse. distinct = hash set over (routine, DIMS, mask, a, b); non-trivial = length > 0 and \
+integers, subnormal integers, one-hot, sparse; plus twelve lengths between 1023 and 10007 (exact data, uniform data, one-hot first/middle/last). distinct = hash set over (routine, DIMS, mask, a, b); non-trivial = length > 0 and \
 some term non-zero.";
 
 fn erange<T: Elem>() -> (i32, i32) {
@@ -131,6 +131,31 @@ fn one_target<T: Elem>(ctx: &mut Ctx, t: Target<T>) {
                 run.tally.add(CLASSES[class as usize], 1);
             }
         }
+    }
+    // lengths far beyond the register geometry (thresholds of blocked code paths): exact small-integer data, uniform data,
+    // and one-hot vectors marking the first, a middle and the last element
+    if t.r.dims.is_none() {
+        for &len in vals::LARGE_LENGTHS.iter() {
+            if run.ctx.out_of_time() {
+                break;
+            }
+            for class in [4u64, 0, 2] {
+                let (a, b) = gen_vec::<T>(&mut rng, len, class, op);
+                run.go(T::zero(), a, if two { b } else { Vec::new() });
+            }
+            for k in [0, len / 2, len - 1] {
+                let mut a = vec![T::zero(); len];
+                a[k] = T::from_f64(3.0);
+                let b = if two {
+                    // dense second operand whose marked element differs from the first operand's
+                    (0..len).map(|i| T::from_f64(if i == k { 5.0 } else { 2.0 })).collect()
+                } else {
+                    Vec::new()
+                };
+                run.go(T::zero(), a, b);
+            }
+        }
+        run.tally.add("class:large_lengths", 1);
     }
     if pack > 0 {
         // one-hot at every index: the result is that single term rounded once
